@@ -50,8 +50,8 @@ PROFILES = {
     },
     # 'stale': in a quarter of the runs two handles are open and maintenance may go through a long-open handle whose
     # snapshot is stale (loud "database is locked" refusals are fine, silent damage is not - see World.step)
-    'C02': {'oracles': ['views', 'counts'], 'weights': W, 'with_b': True, 'big': 0.08, 'lowered': 0.3, 'nops': (3, 14), 'stale': 0.25},
-    'C03': {'oracles': ['raw'], 'weights': W, 'with_b': True, 'big': 0.08, 'lowered': 0.3, 'nops': (3, 14), 'stale': 0.25},
+    'C02': {'oracles': ['views', 'counts'], 'weights': W, 'with_b': True, 'big': 0.08, 'lowered': 0.3, 'nops': (3, 14), 'stale': 0.25, 'mass': 0.02},
+    'C03': {'oracles': ['raw'], 'weights': W, 'with_b': True, 'big': 0.08, 'lowered': 0.3, 'nops': (3, 14), 'stale': 0.25, 'mass': 0.01},
     'C09': {
         'oracles': ['dedup', 'raw', 'views', 'counts'],
         'light': True,
@@ -127,6 +127,7 @@ PROFILES = {
         'sql_knobs_only': True,
         'nops': (4, 14),
         'many_keys': True,
+        'mass': 0.01,
     },
     'C18': {'oracles': ['fds'], 'weights': W, 'with_b': True, 'big': 0.05, 'lowered': 0.2, 'nops': (3, 14), 'handles': (1, 2)},
 }
@@ -183,6 +184,12 @@ def generate(prop, seed, tier='quick'):
                 op['h'] = rng.randrange(handles)
                 if stale and op['op'] in ('delete', 'repack', 'repack_pack', 'pack_loose', 'clean', 'import'):
                     op['h'] = 0  # maintenance goes through the long-open handle
+    if rng.random() < prof.get('mass', 0) * (3 if thorough else 1):
+        # real index sizes: one direct-to-pack batch carries more than 1000 extra tiny objects, so that listings, the
+        # known-keys scan of no_holes, repack and validation page through the index (their page size is not a knob)
+        packs = [op for op in ops if op['op'] == 'add_pack' and op.get('t', 'c') == 'c']
+        if packs:
+            packs[0]['mass'] = rng.choice([1001, 1203, 2005])
     return {
         'engine': 'A',
         'prop': prop,
@@ -200,6 +207,8 @@ def generate(prop, seed, tier='quick'):
 
 def classify_exception(exc):
     """'library' if the exception was raised by code outside /verif (=> violation), else 'harness'."""
+    if isinstance(exc, rawread.LayoutBroken):
+        return 'library'
     tback = traceback.extract_tb(exc.__traceback__)
     if not tback:
         return 'harness'
@@ -290,7 +299,12 @@ def execute(case, keep_root=False):  # pylint: disable=too-many-locals,too-many-
                 ).hexdigest()[:16],
                 'ops': stats['ops'],
                 'faults': {'short_reads': stats.get('short_reads', 0)},
-                'probes': dict(oracle.probes, abstract_states=len(oracle.abstract_states), lowered_knobs=int(case.get('knobs') != DEFAULT_KNOBS)),
+                'probes': dict(
+                    oracle.probes,
+                    abstract_states=len(oracle.abstract_states),
+                    lowered_knobs=int(case.get('knobs') != DEFAULT_KNOBS),
+                    uncommitted_batches_before_commit=stats.get('pending_batches', 0),
+                ),
                 'kinds': dict(SIM.kinds),
             }
         )
